@@ -97,7 +97,7 @@ func (m *c12Model) check(r *Run, c *bridgeChecks, s *Step, o *Outcome) []Violati
 					if or, ok := pre.Oracles[ob]; ok && or.BridgerAddress != signer {
 						vs = append(vs, viol("bridger-only", "confirm/foreign-signer", "%s: confirmation of oracle %d accepted from %s (bridger is %s)", ch.Name, oi, t.Tx.S, or.BridgerAddress))
 					}
-					r.Probe("confirm-accepted:" + typ)
+					r.Probe("confirm-accepted:" + typ + map[bool]string{true: "/tron", false: ""}[ch.Name == "tron"])
 				} else {
 					if t.Tx.A.Str("byz") == "1" {
 						r.Probe("byz-confirm-rejected:" + byzKind(t.Tx))
